@@ -867,7 +867,7 @@ class Engine:
         import builtins as _b
         if isinstance(getattr(_b, n.id, None), type) and issubclass(getattr(_b, n.id), BaseException):
             return VLib("exc:" + n.id)
-        if n.id in ("len", "list", "float", "int", "zip", "enumerate", "range", "abs", "isinstance", "tuple", "max", "min", "dict", "str", "bool", "object", "set", "callable"):
+        if n.id in ("len", "list", "float", "int", "zip", "enumerate", "range", "abs", "isinstance", "tuple", "max", "min", "dict", "str", "bool", "object", "set", "callable", "any", "all"):
             return VLib(n.id)
         if n.id in self.repo.classes:
             return VLib("class:" + n.id)
